@@ -336,6 +336,31 @@ def run(chk):
     chk.ob('C05-R4', got.get(k) == t, None, "literal '%s' is typed %s" % (k, t),
            'literals of kind %s are unified with %s' % (k, got.get(k)), fi=pod)
 
+  # a list literal is a list whatever its length: the empty literal `[]` has
+  # no element to unify with, so a unification outside the per-element loop
+  # is what makes it a list at all
+  ll = repo.func('infer.TypeInferenceForRule.ActMindingListLiterals')
+  in_loop = set()
+  loops = 0
+  for x in walk_local(ll.node):
+    if isinstance(x, (ast.For, ast.While)):
+      loops += 1
+      for st in x.body:
+        in_loop |= {id(y) for y in ast.walk(st)}
+    elif isinstance(x, (ast.ListComp, ast.GeneratorExp, ast.SetComp)):
+      loops += 1
+      in_loop |= {id(y) for y in ast.walk(x.elt)}
+  unif = [c for c in walk_local(ll.node) if isinstance(c, ast.Call) and
+          (call_tail(c) or '').startswith('Unify')]
+  if not unif:
+    raise AnalysisError('ActMindingListLiterals: no unification recognised')
+  outside = [c for c in unif if id(c) not in in_loop]
+  chk.ob('C05-R4', bool(outside) or not loops, None,
+         'a list literal is typed as a list even when it has no elements',
+         'the only unifications of a list literal happen once per element: the empty '
+         'literal [] gets no list type, so `x = []; x = 5` or a number field typed from '
+         '[] passes the checker', fi=ll, node=unif[0])
+
 
 def expression_keys(repo):
   """{key: (fi, node)}: dict entries in parse.py whose value is produced by
